@@ -251,7 +251,9 @@ fn cmd_threads(w: &mut impl Write, dir_hex: &str, nthreads: usize, reps: usize) 
     for t in 0..nthreads {
         let work = Arc::clone(&work);
         let seq = Arc::clone(&seq);
-        handles.push(std::thread::spawn(move || -> Result<usize, usize> {
+        // generous stacks: stack depth is not what C15 is about
+        let builder = std::thread::Builder::new().stack_size(256 << 20);
+        handles.push(builder.spawn(move || -> Result<usize, usize> {
             let n = work.len();
             let mut cmp = 0usize;
             if n == 0 {
@@ -272,7 +274,7 @@ fn cmd_threads(w: &mut impl Write, dir_hex: &str, nthreads: usize, reps: usize) 
                 }
             }
             Ok(cmp)
-        }));
+        }).unwrap());
     }
     let mut total = 0usize;
     let mut bad: Option<usize> = None;
@@ -326,6 +328,13 @@ fn cmd_lowercheck(w: &mut impl Write) {
 
 fn main() {
     std::panic::set_hook(Box::new(|_| {}));
+    // the request loop runs on a thread with a large stack, so that deeply nested sources
+    // cannot kill the harness (stack depth belongs to C04, not to the directory properties)
+    let worker = std::thread::Builder::new().stack_size(1 << 30).spawn(serve).unwrap();
+    worker.join().unwrap();
+}
+
+fn serve() {
     let stdin = io::stdin();
     let stdout = io::stdout();
     let mut w = io::BufWriter::new(stdout.lock());
